@@ -2,6 +2,7 @@ package main
 
 import (
 	"fmt"
+	"go/token"
 	"go/types"
 	"strings"
 
@@ -297,6 +298,9 @@ func c06R5(c *Ctx) {
 		})
 		okc = n == 1
 	}
+	if !okc {
+		okc = interruptTableForm(h, cancelP)
+	}
 	c.verdict(okc, rule, "interrupt-cancels", c.pos(h.Pos()), "cancel() follows the first interrupt", "the interrupt handler does not cancel the run context after the first interrupt")
 	// runWorkflow: cancel passed to the handler comes from the WithCancel whose ctx is passed to Run
 	okPass := false
@@ -380,6 +384,137 @@ func c06R5(c *Ctx) {
 		})
 	}
 	c.verdict(okPass, rule, "interrupt-wired", c.pos(rw.Pos()), "the handler gets the cancel function of the context the workflow runs with", "the interrupt handler is not wired to the context the workflow runs with")
+}
+
+// interruptTableForm: the handler is a loop over a local list of reactions — each iteration receives once from the
+// signal channel and then calls the element of that iteration — and the first reaction (index 0) calls the cancel
+// function it captured on every path. (The k-th iteration calls the k-th element: a `range` over a slice literal.)
+func interruptTableForm(h *ssa.Function, cancelP *ssa.Parameter) bool {
+	if cancelP == nil {
+		return false
+	}
+	var elemCall *ssa.Call
+	var arr ssa.Value
+	nCalls := 0
+	eachInstr(h, func(r instrRef) {
+		call, ok := r.I.(*ssa.Call)
+		if !ok {
+			return
+		}
+		u, ok := call.Common().Value.(*ssa.UnOp)
+		if !ok || u.Op != token.MUL {
+			return
+		}
+		ia, ok := u.X.(*ssa.IndexAddr)
+		if !ok {
+			return
+		}
+		if _, isConst := ia.Index.(*ssa.Const); isConst {
+			return
+		}
+		base := ia.X
+		if sl, ok := base.(*ssa.Slice); ok && sl.Low == nil && sl.High == nil {
+			base = sl.X
+		}
+		if _, ok := base.(*ssa.Alloc); !ok {
+			return
+		}
+		// the index is the loop counter of a range: a phi, or phi+1
+		idx := ia.Index
+		if b, ok := idx.(*ssa.BinOp); ok && b.Op == token.ADD {
+			if k, ok := b.Y.(*ssa.Const); ok && k.Int64() == 1 {
+				idx = b.X
+			}
+		}
+		if _, ok := idx.(*ssa.Phi); !ok {
+			return
+		}
+		nCalls++
+		elemCall, arr = call, base
+	})
+	if nCalls != 1 || elemCall == nil {
+		return false
+	}
+	// exactly one receive, in the loop, before the call of the element
+	nRecv := 0
+	var recv ssa.Instruction
+	eachInstr(h, func(r instrRef) {
+		if u, ok := r.I.(*ssa.UnOp); ok && u.Op == token.ARROW {
+			nRecv++
+			recv = u
+		}
+	})
+	if nRecv != 1 || !dominates(recv, elemCall) || !reachesBlock(elemCall.Block(), recv.Block()) {
+		return false
+	}
+	// element 0 of the list
+	var first *ssa.MakeClosure
+	nFirst := 0
+	for _, ref := range *arr.Referrers() {
+		ia, ok := ref.(*ssa.IndexAddr)
+		if !ok {
+			continue
+		}
+		k, ok := ia.Index.(*ssa.Const)
+		if !ok || k.Int64() != 0 || ia.Referrers() == nil {
+			continue
+		}
+		for _, r2 := range *ia.Referrers() {
+			if st, ok := r2.(*ssa.Store); ok && st.Addr == ssa.Value(ia) {
+				nFirst++
+				first, _ = st.Val.(*ssa.MakeClosure)
+			}
+		}
+	}
+	if nFirst != 1 || first == nil {
+		return false
+	}
+	clo, _ := first.Fn.(*ssa.Function)
+	if clo == nil {
+		return false
+	}
+	okCancel := false
+	eachInstr(clo, func(r instrRef) {
+		cc := callCommon(r.I)
+		if cc == nil {
+			return
+		}
+		u, ok := cc.Value.(*ssa.UnOp)
+		if !ok {
+			return
+		}
+		fv, ok := u.X.(*ssa.FreeVar)
+		if !ok {
+			return
+		}
+		cell := capturedCell(fv)
+		if cell == nil {
+			return
+		}
+		if soleStore(cell) == ssa.Value(cancelP) && executesOnEveryPath(r.I) {
+			okCancel = true
+		}
+	})
+	return okCancel
+}
+
+// reachesBlock: b can reach target through successor edges (b == target counts only through a cycle).
+func reachesBlock(b, target *ssa.BasicBlock) bool {
+	seen := map[*ssa.BasicBlock]bool{}
+	work := append([]*ssa.BasicBlock{}, b.Succs...)
+	for len(work) > 0 {
+		x := work[len(work)-1]
+		work = work[:len(work)-1]
+		if x == target {
+			return true
+		}
+		if seen[x] {
+			continue
+		}
+		seen[x] = true
+		work = append(work, x.Succs...)
+	}
+	return false
 }
 
 func c06R6(c *Ctx) {
